@@ -266,6 +266,7 @@ class C07(F.PropCheck):
         time2 = list(cfg['time2'])
         busy = []                      # (t_start, t_end) of every relay operation seen (a GPIO edge or a command)
         saved = ([0] * 8, [0] * 8)     # flash image of Relay[], Time2Left[]
+        cancelled = [False] * nrel     # the channel's timer was cancelled by a command and no newer one armed: nothing may remain of it, here or in flash
         prev = st_of(segs[0]); tprev = 0
         flags_known = not cfg['lateflags']      # channel_flags filled (board fills them in gpio_init, or FLAGS event since the last boot)
         lastrem = list(prev['rem']); lastt2 = list(prev['t2l'])
@@ -284,7 +285,12 @@ class C07(F.PropCheck):
             if e[0] == 'FLAGS': flags_known = True
             img = saved
             for o in seg[:-1]:
-                if o[0] == 'SAVED': saved = (o[1][1:9], o[1][9:17])
+                if o[0] == 'SAVED':
+                    saved = (o[1][1:9], o[1][9:17])
+                    for i in range(nrel):
+                        if cancelled[i] and rel[i][1] < 8 and saved[1][rel[i][1]] != 0:
+                            v.append('CANCEL-KEPT the state sector written at %d us still holds %d ms of remaining time for gpio %d whose timer was cancelled by a command' % (o[1][0], saved[1][rel[i][1]], rel[i][0]))
+                            cancelled[i] = False
                 if o[0] != 'GPIO': continue
                 t, p, lv = o[1]
                 if p not in pinidx: continue
@@ -310,7 +316,7 @@ class C07(F.PropCheck):
             # after the event: what is pending now?
             if crashed:
                 for i in range(nrel):
-                    g, ch, f, cf = rel[i]; pending[i] = None
+                    g, ch, f, cf = rel[i]; pending[i] = None; cancelled[i] = False
                     if not (f & RST) or ch >= 8 or weird[i]: continue
                     want = img[0][i]; lvl = (1 if want == 1 else 0) ^ (1 if f & LO else 0)
                     if want in (0, 1) and s['pin'][i] != lvl:
@@ -323,13 +329,23 @@ class C07(F.PropCheck):
                             v.append('RESTORE-LOST after the restart no timer is pending for gpio %d although %d ms were saved as remaining (saved level %d)' % (g, img[1][ch], want))
                         elif s['rem'][i] != 0 and not (img[1][ch] - (nrel * OP) // 1000 - 1 <= s['rem'][i] <= img[1][ch]):
                             v.append('after the restart the remaining time of gpio %d is %d ms, the saved one was %d ms' % (g, s['rem'][i], img[1][ch]))
+                    if img[1][ch] == 0 and s['rem'][i] > 0 and time2[ch] == 0:
+                        v.append('RESTORE-INVENTED after the restart a timer of %d ms runs for gpio %d although no remaining time was saved' % (s['rem'][i], g))
                     if s['rem'][i] > 0: pending[i] = (t0, s['t'], s['rem'][i], s['pin'][i])     # not later: counted from the end of the boot
                 lastrem = list(s['rem']); lastt2 = list(s['t2l'])
             else:
                 if e[0] == 'TIME2' and 0 <= e[1][0] < 8: time2[e[1][0]] = e[1][1]
                 if target is not None:
+                    had = pending[target] is not None and not weird[target]
                     weird[target] = e[0] == 'SET' and e[1][1] not in (0, 1)
                     d_exp = s['rem'][target]
+                    # a command that leaves no timer cancels the pending one for good: nothing of it may stay behind (it would be saved and
+                    # started again after a restart)
+                    if had and d_exp == 0 and not weird[target]:
+                        if s['t2l'][target] != 0:
+                            v.append('CANCEL-KEPT the command cancelled the timer of gpio %d but %d ms of remaining time stay in the persisted state (Time2Left)' % (rel[target][0], s['t2l'][target]))
+                        else: cancelled[target] = True
+                    else: cancelled[target] = False
                     if d_exp == 0 and e[0] == 'SET' and not weird[target]:
                         # the device shows no timer; does the statement demand one?  "on for d" always arms (staircase: its configured
                         # time unless the same remaining time is being restored), "off for d" arms on a channel whose countdown
